@@ -414,3 +414,12 @@ VARIANTS += [
     V("C03", "benign: leave_funcdef branches reordered", VIS, '            if isinstance(parent, Module):\n                parent.add_function(function)\n            elif isinstance(parent, Class):\n                if function.name == "__init__":\n                    parent.add_constructor(function)\n                else:\n                    parent.add_method(function)',
       '            if isinstance(parent, Class):\n                if function.name == "__init__":\n                    parent.add_constructor(function)\n                else:\n                    parent.add_method(function)\n            elif isinstance(parent, Module):\n                parent.add_function(function)', None),
 ]
+VARIANTS += [
+    V("C06", "benign: receiver skipped by its index", GEN, '        first_loop_skipped = False\n        for parameter in parameters:\n            # Skip self parameter for functions\n            if is_instance_method and not first_loop_skipped:\n                first_loop_skipped = True\n                continue\n',
+      '        for parameter_index, parameter in enumerate(parameters):\n            # Skip self parameter for functions\n            if is_instance_method and parameter_index == 0:\n                continue\n', None),
+    V("C05", "benign: receiver skipped by its index", GEN, '        first_loop_skipped = False\n        for parameter in parameters:\n            # Skip self parameter for functions\n            if is_instance_method and not first_loop_skipped:\n                first_loop_skipped = True\n                continue\n',
+      '        for parameter_index, parameter in enumerate(parameters):\n            # Skip self parameter for functions\n            if is_instance_method and parameter_index == 0:\n                continue\n', None),
+    V("C09", "benign: receiver skipped by its index", GEN, '        first_loop_skipped = False\n        for parameter in parameters:\n            # Skip self parameter for functions\n            if is_instance_method and not first_loop_skipped:\n                first_loop_skipped = True\n                continue\n',
+      '        for parameter_index, parameter in enumerate(parameters):\n            # Skip self parameter for functions\n            if is_instance_method and parameter_index == 0:\n                continue\n', None),
+    V("C12", "benign: store written with update()", API, '        self.classes[class_.id] = class_', '        self.classes.update({class_.id: class_})', None),
+]
